@@ -220,6 +220,57 @@ fn main() {
                     Err(_) => println!("PANIC alloc={}", a),
                 }
             }
+            // resp <plan> <hex bytes> -> Response::from_stream under a read plan: "OK <version hex>|<status u16>|<headers Debug>|<body hex>" | "ERR <error>" | PANIC
+            // respalloc <hex bytes> -> "<OK|ERR|PANIC> alloc=<largest single allocation request>"
+            "resp" | "respalloc" => {
+                struct Planned {
+                    data: Vec<u8>,
+                    pos: usize,
+                    plan: usize,
+                }
+                impl std::io::Read for Planned {
+                    fn read(&mut self, buf: &mut [u8]) -> std::io::Result<usize> {
+                        let avail = self.data.len() - self.pos;
+                        if avail == 0 || buf.is_empty() {
+                            return Ok(0);
+                        }
+                        let want = match self.plan {
+                            0 => avail,
+                            1 => 1,
+                            k => {
+                                if self.pos < k {
+                                    k - self.pos
+                                } else {
+                                    avail
+                                }
+                            }
+                        };
+                        let n = want.min(avail).min(buf.len());
+                        buf[..n].copy_from_slice(&self.data[self.pos..self.pos + n]);
+                        self.pos += n;
+                        Ok(n)
+                    }
+                }
+                let alloc = parts[0] == "respalloc";
+                let plan: usize = if alloc { 0 } else { parts[1].parse().unwrap() };
+                let mut rd = Planned { data: unhex(parts[if alloc { 1 } else { 2 }]), pos: 0, plan };
+                vk::alloc_track::reset();
+                let r = std::panic::catch_unwind(std::panic::AssertUnwindSafe(|| humphrey::http::Response::from_stream(&mut rd)));
+                let a = vk::alloc_track::max_request();
+                if alloc {
+                    match r {
+                        Ok(Ok(_)) => println!("OK alloc={}", a),
+                        Ok(Err(_)) => println!("ERR alloc={}", a),
+                        Err(_) => println!("PANIC alloc={}", a),
+                    }
+                } else {
+                    match r {
+                        Ok(Ok(q)) => println!("OK {}|{}|{:?}|{}", hexs(q.version.as_bytes()), Into::<u16>::into(q.status_code), q.headers, hexs(&q.body)),
+                        Ok(Err(e)) => println!("ERR {:?}", e),
+                        Err(_) => println!("PANIC"),
+                    }
+                }
+            }
             "sha1" => {
                 use humphrey_ws::verif::SHA1Hash;
                 let m = unhex(parts[1]);
